@@ -41,7 +41,7 @@ def mlen(m, y):
 def main():
     c = Check('C19')
     c.prove()
-    build_driver()
+    build_driver(['c19'])
     build_harness(['owrun'])
     rng = c.rng
     quick = c.tier == 'quick'
